@@ -32,7 +32,7 @@ Fixpoint b (s : String.string) : bytes :=
   end.
 
 Record ocase := mkCase {
-  c_files    : list cfile;               (* the files named on the command line, parents inside *)
+  c_files    : list xfile;               (* the files named on the command line with their extends chains *)
   c_defshell : leaf;                     (* command.DefaultShellConfig() on this machine *)
   c_obs      : option project;           (* projection of Load's result; None = error without project *)
   c_obs2     : option (option project)   (* Load of the explicitly named chain, if the harness did it *)
@@ -129,14 +129,6 @@ Definition spec_project (strict : bool) (gs : list project) : project :=
 
 (* environment clauses *)
 Definition mem_bytes (e : bytes) (l : list bytes) : bool := existsb (bytes_eqb e) l.
-Fixpoint last_with_key (k : bytes) (l : list bytes) : option bytes :=
-  match l with
-  | [] => None
-  | e :: r => match last_with_key k r with
-              | Some x => Some x
-              | None => if bytes_eqb (key_of e) k then Some e else None
-              end
-  end.
 Definition env_spec_ok (inputs : list env) (obs : env) : bool :=
   let all := flat_map olist inputs in
   forallb (fun e => match last_with_key (key_of e) all with
@@ -145,17 +137,9 @@ Definition env_spec_ok (inputs : list env) (obs : env) : bool :=
 
 (* the chain in the order in which the text reads it: ancestors (root first, working directories resolved
    against their own directory), then the file itself *)
-Fixpoint flatten_file (f : cfile) : list project :=
-  match f with
-  | CFile _ _ c None => [c]
-  | CFile _ _ c (Some par) =>
-      (fix anc (a : cfile) : list project :=
-         match a with
-         | CFile _ d c' None => [resolve_wd d c']
-         | CFile _ d c' (Some pp) => anc pp ++ [resolve_wd d c']
-         end) par ++ [c]
-  end.
-Definition has_parent (f : cfile) : bool := match f_parent f with Some _ => true | None => false end.
+Definition flatten_file (x : xfile) : list project :=
+  map (fun a => f_cfg (resolve_file a)) (rev (snd x)) ++ [f_cfg (fst x)].
+Definition has_parent (x : xfile) : bool := match snd x with [] => false | _ => true end.
 
 (* the monitor speaks about lists of files of which at most one extends another (the property text says
    "loading a file that extends a base"); with two extending files the order used by the loader is not fixed
@@ -164,11 +148,7 @@ Definition in_scope (c : ocase) : bool := Nat.leb (length (filter has_parent (c_
 
 (* every file involved (named or reached through extends) is a different file; otherwise Load answers
    "already specified in files to load" and there is no merged result to judge *)
-Fixpoint names_of (f : cfile) : list N :=
-  match f with
-  | CFile n _ _ None => [n]
-  | CFile n _ _ (Some p) => n :: names_of p
-  end.
+Definition names_of (x : xfile) : list N := f_name (fst x) :: map f_name (snd x).
 Definition distinct_files (c : ocase) : bool :=
   let ns := flat_map names_of (c_files c) in Nat.eqb (length (dedup ns)) (length ns).
 
